@@ -31,8 +31,11 @@ for d in $want; do
   if [ ocaml/conv.ml -nt $out/conv.cmx ] || [ $out/nngv_model.cmx -nt $out/conv.cmx ] || [ ! -f $out/conv.cmx ]; then
     cp ocaml/conv.ml $out/ && ( cd $out && ocamlfind ocamlopt -w -a -c conv.ml ) || { rc=1; continue; }
   fi
-  if [ $src -nt ocaml/build/modeld_$d ] || [ $out/conv.cmx -nt ocaml/build/modeld_$d ] || [ ! -f ocaml/build/modeld_$d ]; then
-    cp $src $out/ && ( cd $out && ocamlfind ocamlopt -w -a -o ../modeld_$d nngv_model.cmx conv.cmx drv_$d.ml 2>build_$d.log ) || { echo "build_models: driver $d does not compile (see $out/build_$d.log)" >&2; rc=1; continue; }
+  extra=$(sed -n '2s/^(\* with: \(.*\) \*).*/\1/p' $src)
+  newer=0; for e in $extra; do [ ocaml/$e -nt ocaml/build/modeld_$d ] && newer=1; done
+  if [ $newer = 1 ] || [ $src -nt ocaml/build/modeld_$d ] || [ $out/conv.cmx -nt ocaml/build/modeld_$d ] || [ ! -f ocaml/build/modeld_$d ]; then
+    for e in $extra; do cp ocaml/$e $out/; done
+    cp $src $out/ && ( cd $out && ocamlfind ocamlopt -w -a -o ../modeld_$d nngv_model.cmx conv.cmx $extra drv_$d.ml 2>build_$d.log ) || { echo "build_models: driver $d does not compile (see $out/build_$d.log)" >&2; rc=1; continue; }
   fi
 done
 [ $fatal = 1 ] && exit $rc
